@@ -509,6 +509,11 @@ func (l *loopState) notifySteps() { //nolint:gocognit
 		if failed {
 			if nodeItem.Kind == DAGItemKindOutput {
 				l.logger.Debugf("Output node %s failed", nodeID)
+				if _, isWaiting := l.waitingOutputs[nodeID]; !isWaiting {
+					// This output was already accounted for; it became ready again
+					// because another one of its dependencies was marked unresolvable.
+					continue
+				}
 				// Check to see if there are any remaining output nodes, and if there aren't,
 				// cancel the context.
 				delete(l.waitingOutputs, nodeID)
